@@ -380,8 +380,18 @@ def one_capture(seed, i, res, tape):
     ran = {"assertion": 0, "body": 0}
     MT = MessageType("c14:cap", [Field.for_types("n", [int], "")], "")
 
+    finishes_in_cleanup = rng.random() < 0.2  # the body starts an action that one of the test's own cleanups finishes
+
     def assert_cb(test, logger, *a, **kw):
         ran["assertion"] += 1
+        if finishes_in_cleanup:
+            # the assertion callback sees the complete log: cleanups registered by the test body have run before it
+            from eliot.testing import LoggedAction
+            try:
+                late = LoggedAction.of_type(logger.messages, "c14:late")
+                ran["late"] = "ok" if (len(late) == 1 and late[0].end_message.get("action_status") == "succeeded") else "wrong: %d entries" % len(late)
+            except BaseException as e:
+                ran["late"] = "raised %r" % (e,)
         if a != (1,) or kw != {"k": 2}:
             raise RuntimeError("assertion arguments not passed through")
         if assertion == "fail":
@@ -409,6 +419,9 @@ def one_capture(seed, i, res, tape):
                 ran["logger"] = logger
                 for _ in range(nested):
                     self.helper()
+                if finishes_in_cleanup:
+                    late_action = eliot.start_action(logger, "c14:late") if decorator != "capture" else eliot.start_action(action_type="c14:late")
+                    self.addCleanup(late_action.finish)
                 kw = {} if decorator == "capture" else None
                 if body == "valid":
                     MT.log(n=1) if decorator == "capture" else logger.write({"message_type": "c14:cap", "n": 1, "task_uuid": "u", "task_level": [1], "timestamp": 1.0}, MT._serializer)
@@ -469,6 +482,8 @@ def one_capture(seed, i, res, tape):
             problems.append("test body ran %d times" % ran["body"])
         skipped = outcome in ("skip", "skip_method")
         want_assert = 0 if (cb is None or skipped) else 1
+        if finishes_in_cleanup and ran["assertion"] and nested == 0 and not leaves_swapped and ran.get("late") != "ok":
+            problems.append("the assertion callback ran before the test's own cleanups: an action finished by a cleanup was %s" % (ran.get("late"),))
         if ran["assertion"] != want_assert:
             problems.append("assertion callback ran %d times, expected %d (outcome %s)" % (ran["assertion"], want_assert, outcome))
         # Money is encodable only by MoneyEncoder; a set by the stock encoder and MoneyEncoder but not by RefusingEncoder
